@@ -85,4 +85,36 @@ theorem cycle5 (a b c d e : Char) :
     | exact ⟨_, rfl, rfl, by simp [fix5, unfix5, hd0, he, hc, hdb, h0, hb, h0b, hb0], by simp [fix5, unfix5, hd0, he, hc, hdb, h0, hb, h0b, hb0]⟩
     | skip
 
+
+/-- The text a simulator prints for a name that it holds as (A3, I2): three characters and a
+    two-digit integer field.  A five-character name whose last two characters read as an integer
+    (two digits, or a blank and a digit) is printed as its first three characters followed by the
+    integer right-justified in two columns; any other name is not of that form and is kept. -/
+def simForm : Str → Str
+  | [a, b, c, d, e] =>
+    if isDigit e = true ∧ (isDigit d = true ∨ d = ' ') then
+      [a, b, c] ++ rjust (natStr (digitsVal ([d, e].filter (· != ' ')))) 2
+    else [a, b, c, d, e]
+  | n => n
+
+theorem unfix_simForm5 (a b c d e : Char) : unfixBlockname [a, b, c, d, e] = simForm [a, b, c, d, e] := by
+  have hb : isDigit ' ' = false := by decide
+  rw [unfix5]
+  unfold simForm
+  by_cases he : isDigit e = true
+  · have hne : e ≠ ' ' := by rintro rfl; rw [hb] at he; cases he
+    by_cases hd : isDigit d = true
+    · have hnd : d ≠ ' ' := by rintro rfl; rw [hb] at hd; cases hd
+      have hf : [d, e].filter (· != ' ') = [d, e] := by simp [hnd, hne]
+      simp only [he, hd, true_or, and_self, if_true, hf, fmt_two_digits hd he, and_true]
+      by_cases h0 : d = '0' <;> simp [h0]
+    · have h0 : d ≠ '0' := by rintro rfl; exact hd (by decide)
+      by_cases hdb : d = ' '
+      · subst hdb
+        have hf : [' ', e].filter (· != ' ') = [e] := by simp [hne]
+        simp only [he, hf, fmt_one_digit he, h0]
+        simp
+      · simp [he, hd, hdb, h0]
+  · simp [he]
+
 end Proofs.Names
